@@ -82,14 +82,133 @@ META = ["rulelist", "rule", "rulename", "defined-as", "elements", "c-wsp", "c-nl
         "case-insensitive-string", "case-sensitive-string", "quoted-string"]
 
 
+def certificate(P, rules):
+    """UNTRUSTED well-formedness certificate for the closed rule list: nullable flags (least fixpoint), ranks (longest path
+    in the graph of left references + exclusions), rank bound K, depth bound D.  Lean only checks it (wfCheck)."""
+    idx = {id(r): k for k, r in enumerate(rules)}
+    nullable = [False] * len(rules)
+
+    def nl(p):
+        if isinstance(p, P.Rule):
+            return nullable[idx[id(p)]]
+        if isinstance(p, P.Alternation):
+            return any(nl(q) for q in p.parsers)
+        if isinstance(p, P.Concatenation):
+            return all(nl(q) for q in p.parsers)
+        if isinstance(p, P.Option):
+            return True
+        if isinstance(p, P.Repetition):
+            return p.repeat.min == 0 or nl(p.element)
+        if isinstance(p, P.Literal):
+            return (not isinstance(p.value, tuple)) and p.value == ""
+        return False
+
+    changed = True
+    while changed:
+        changed = False
+        for k, r in enumerate(rules):
+            d = getattr(r, "definition", None)
+            if d is not None and not nullable[k] and nl(d):
+                nullable[k] = True
+                changed = True
+
+    def left(p):
+        if isinstance(p, P.Rule):
+            return [idx[id(p)]]
+        if isinstance(p, P.Alternation):
+            return [x for q in p.parsers for x in left(q)]
+        if isinstance(p, P.Concatenation):
+            out = []
+            for q in p.parsers:
+                out += left(q)
+                if not nl(q):
+                    break
+            return out
+        if isinstance(p, P.Option):
+            return left(p.parser)
+        if isinstance(p, P.Repetition):
+            return left(p.element)
+        return []
+
+    def depth(p):
+        if isinstance(p, (P.Alternation, P.Concatenation)):
+            return 1 + max([depth(q) for q in p.parsers] or [0])
+        if isinstance(p, P.Option):
+            return depth(p.parser)
+        if isinstance(p, P.Repetition):
+            return 1 + depth(p.element)
+        return 0
+
+    edges = {}
+    for k, r in enumerate(rules):
+        d = getattr(r, "definition", None)
+        e = left(d) if d is not None else []
+        ex = getattr(r, "exclude", None)
+        if ex is not None:
+            e.append(idx[id(ex)])
+        edges[k] = e
+    rank = {}
+    state = {}
+
+    def visit(k):
+        if state.get(k) == 2:
+            return rank[k]
+        if state.get(k) == 1:
+            return 0  # left recursion: no valid certificate exists; Lean's checker will say so
+        state[k] = 1
+        rank[k] = 1 + max([visit(j) for j in edges[k]] or [0]) if edges[k] else 0
+        state[k] = 2
+        return rank[k]
+
+    for k in range(len(rules)):
+        visit(k)
+    ranks = [rank[k] for k in range(len(rules))]
+    D = max([depth(getattr(r, "definition", None)) for r in rules if getattr(r, "definition", None) is not None] or [0])
+    return nullable, ranks, max(ranks or [0]) + 1, D
+
+
+def closure(P, rules):
+    """all Rule objects reachable from `rules` (definitions, exclusions), in discovery order"""
+    enc = LeanEnc(P, rules)
+    enc.grammar()
+    return enc.rules
+
+
+def emit_ranked(name, const, rules, P):
+    """Like emit, but the rules are emitted in the order of their certificate rank (so that rank = index) and the nullable
+    declaration is a bit mask: the checker `wfFast` then needs no list look-ups (big tables)."""
+    rules = closure(P, rules)
+    nullable, ranks, K, D = certificate(P, rules)
+    order = sorted(range(len(rules)), key=lambda k: (ranks[k], k))
+    ordered = [rules[k] for k in order]
+    enc = LeanEnc(P, ordered)
+    lines = enc.grammar()
+    assert len(enc.rules) == len(ordered)
+    nullable2, _, _, D2 = certificate(P, ordered)
+    mask = sum(1 << k for k, b in enumerate(nullable2) if b)
+    names = ", ".join(f'("{type(r).__module__.split(".")[-1]}.{type(r).__name__}.{r.name}", {k})' for k, r in enumerate(ordered))
+    text = (f"-- GENERATED by harness/extract.py from {lib.REPO}/src/abnf - do not edit\n"
+            "import Abnf.Syntax\nset_option maxRecDepth 100000\nnamespace AbnfGen\nopen Abnf\n\n"
+            f"def {const} : Grammar := #[\n" + ",\n".join(lines) + "\n]\n\n"
+            f"def {const}Names : List (String × Nat) := [{names}]\n\n"
+            f"-- untrusted certificate (rules are listed in rank order; nullable rules as a bit mask), checked by Abnf.wfFast\n"
+            f"def {const}Mask : Nat := {mask}\ndef {const}D : Nat := {D2}\n\nend AbnfGen\n")
+    return write_if_changed(os.path.join(GEN_DIR, name + ".lean"), text)
+
+
 def emit(name, const, rules, P):
     enc = LeanEnc(P, rules)
     lines = enc.grammar()
     names = ", ".join(f'("{r.name}", {k})' for k, r in enumerate(enc.rules))
+    nullable, ranks, K, D = certificate(P, enc.rules)
     text = (f"-- GENERATED by harness/extract.py from {lib.REPO}/src/abnf/parser.py - do not edit\n"
             "import Abnf.Syntax\nset_option maxRecDepth 100000\nnamespace AbnfGen\nopen Abnf\n\n"
             f"def {const} : Grammar := #[\n" + ",\n".join(lines) + "\n]\n\n"
-            f"def {const}Names : List (String × Nat) := [{names}]\n\nend AbnfGen\n")
+            f"def {const}Names : List (String × Nat) := [{names}]\n\n"
+            f"-- untrusted certificate, checked by Abnf.wfCheck\n"
+            f"def {const}Nullable : List Bool := [{', '.join('true' if b else 'false' for b in nullable)}]\n"
+            f"def {const}Rank : List Nat := [{', '.join(str(v) for v in ranks)}]\n"
+            f"def {const}K : Nat := {K}\ndef {const}D : Nat := {D}\n\nend AbnfGen\n")
     return write_if_changed(os.path.join(GEN_DIR, name + ".lean"), text)
 
 
@@ -106,7 +225,15 @@ def main():
     P = lib.import_repo()
     c1 = emit("Core", "coreG", [P.Rule.get(n) for n in CORE], P)
     c2 = emit("Meta", "metaG", [P.ABNFGrammarRule.get(n) for n in META], P)
-    print("AbnfGen regenerated:", {"Core": c1, "Meta": c2})
+    # every rule object of every bundled grammar class (with whatever they reach), as ONE grammar
+    import bundled
+    mods = [bundled.load(m) for m in bundled.module_names()]
+    rules = []
+    for (cls, _), r in P.Rule._obj_map.items():
+        if cls.__module__.startswith("abnf.grammars."):
+            rules.append(r)
+    c3 = emit_ranked("Bundled", "bundledG", rules, P)
+    print("AbnfGen regenerated:", {"Core": c1, "Meta": c2, "Bundled": c3, "bundled_rules": len(rules)})
 
 
 if __name__ == "__main__":
